@@ -782,6 +782,96 @@ fn unspecified_strategy() -> impl Strategy<Value = Decode> {
     })
 }
 
+// ---------------------------------------------------------------- white space is ignored ANYWHERE
+
+/// One character (decided or other white space, or a character that is no white space at all) inserted into the
+/// same long digit string at two different offsets. "Decoding ignores whitespace anywhere": whatever the tool
+/// takes for white space, where it stands cannot matter, so both inputs must have the same outcome. Offset A
+/// makes the character's bytes straddle (or touch) a multiple of 4096 in the input - where an implementation
+/// that reads in chunks changes buffers -, offset B is near the start or the end.
+#[derive(Clone, Debug, Serialize, Deserialize)]
+pub struct WsMove {
+    pub argv: Vec<String>,
+    pub data_len: usize,
+    pub seed: u64,
+    pub prefix: bool,
+    pub ch: String,
+    pub offset_a: usize,
+    pub offset_b: usize,
+}
+
+fn ws_move_cases(n: usize, seed0: u64) -> Vec<WsMove> {
+    const CHARS: [&str; 14] = [" ", "\n", "\r\n", "\t", "\u{a0}", "\u{85}", "\u{2003}", "\u{3000}", "\u{2028}", "\u{1680}", "\u{205f}", "\u{200b}", "\u{feff}", "\u{1f600}"];
+    let mut v = vec![];
+    for i in 0..n {
+        let mut p = Prng::new(seed0 ^ (i as u64).wrapping_mul(0x9e3779b97f4a7c15));
+        let data_len = [4096usize, 4097, 5000, 8192, 8193, 12_000, 33_000][p.below(7) as usize];
+        let prefix = p.below(2) == 0;
+        let text_len = 2 * data_len + if prefix { 2 } else { 0 };
+        let ch = CHARS[i % CHARS.len()];
+        let l = ch.len();
+        let boundaries: Vec<usize> = [4096usize, 8192, 12_288, 16_384, 32_768, 65_536].into_iter().filter(|b| *b + 4 < text_len).collect();
+        let b = boundaries[p.below(boundaries.len() as u64) as usize];
+        // bytes [o, o+l) with o < b < o+l for multi-byte characters; for one-byte characters just before / at b
+        let o = if l > 1 { b - 1 - p.below(l as u64 - 1) as usize } else { b - p.below(2) as usize };
+        let lo = if prefix { 2 } else { 0 };
+        let offset_b = match p.below(3) {
+            0 => lo,
+            1 => text_len,
+            _ => lo + 1 + p.below(64) as usize,
+        };
+        v.push(WsMove { argv: argv("decode", (i / CHARS.len()) as u8), data_len, seed: p.next_u64(), prefix, ch: ch.to_string(), offset_a: o.max(lo), offset_b });
+    }
+    v
+}
+
+fn judge_ws_move(c: &WsMove, cls: &mut Classifier) -> Verdict {
+    let data = Prng::new(c.seed).bytes(c.data_len);
+    let mut text = String::with_capacity(2 * c.data_len + 8);
+    if c.prefix {
+        text.push_str("0x");
+    }
+    text.push_str(&hex_lower(&data));
+    let place = |at: usize| -> Vec<u8> {
+        let at = at.min(text.len());
+        let mut s = text.clone();
+        s.insert_str(at, &c.ch);
+        s.into_bytes()
+    };
+    let (a, b) = (place(c.offset_a), place(c.offset_b));
+    let (oa, ob) = (run_cli(&c.argv, &a), run_cli(&c.argv, &b));
+    if oa.timed_out || ob.timed_out {
+        cls.label(TIMEOUT_LABEL);
+        return Ok(());
+    }
+    let cmd = c.argv.join(" ");
+    let what = format!("U+{:04X}", c.ch.chars().next().map(|x| x as u32).unwrap_or(0));
+    for o in [&oa, &ob] {
+        if o.panicked() {
+            return fail("a result or an ordinary error", observed(o), format!("`{cmd}` panicked on {} digits with {what} inserted", 2 * c.data_len));
+        }
+    }
+    let class = |o: &CliOut| (o.ok(), o.stdout.clone());
+    if class(&oa) != class(&ob) {
+        return fail(
+            format!("the same outcome as with the character at offset {}: {}", c.offset_b, observed(&ob)),
+            observed(&oa),
+            format!("`{cmd}` on {} digits{}: {what} at byte offset {} (bytes straddling or touching a multiple of 4096) vs at offset {}: white space is ignored anywhere, so where a character stands cannot change the outcome", 2 * c.data_len, if c.prefix { " after 0x" } else { "" }, c.offset_a, c.offset_b),
+        );
+    }
+    // a decided white-space character must simply be ignored
+    if c.ch.chars().all(decided_ws) && (!oa.ok() || oa.stdout != data) {
+        return fail(format!("exit 0 and the {} original bytes", data.len()), observed(&oa), format!("`{cmd}` on {} digits with {what} at offset {}", 2 * c.data_len, c.offset_a));
+    }
+    cls.label(if oa.ok() { "ws-move-accepted" } else { "ws-move-refused" });
+    if c.ch.len() > 1 {
+        cls.label("ws-move-multibyte-straddles-4096-multiple");
+    }
+    cls.nontrivial(&("ws-move", c.data_len, c.seed, c.ch.as_str(), c.offset_a, c.offset_b));
+    cls.sample("ws-move", || json!({"char": what, "digits": 2 * c.data_len, "offset_a": c.offset_a, "offset_b": c.offset_b, "accepted": oa.ok()}));
+    Ok(())
+}
+
 // ---------------------------------------------------------------- fixed tables and sweeps
 
 /// Hand-written spellings with the bytes they denote. Doubles as a self-test
@@ -864,7 +954,7 @@ fn setup(ctx: &Ctx) {
 
 pub fn run(ctx: &mut Ctx) {
     setup(ctx);
-    ctx.rule = "CLI subprocess runs of the overflow-checked build, input by stdin (default and explicit `-`), by file (with decoy stdin), and - in a fixed table of lengths 0..70000 and malformed texts - by paths that are not regular files (/dev/stdin, a FIFO). (a) byte strings of length 0..=4096 (uniform bytes; all-0, all-ff, every byte value in turn, text, white-space bytes, hex-looking text, UTF-8, trailing line ends, bytes >= 0x80, control bytes; every single byte value and every length of a range as sweeps): `hex encode` must print exactly 0x + lower-case digits + newline and `hex decode` of that very output must return the bytes. (b) the digits of such strings re-spelled: 0x present/absent, digit case lower/upper/random/alternating, 11 white-space layouts over the six ASCII white-space characters {space, tab, LF, VT, FF, CR} (ends, between bytes, between the two digits of a byte, wrapped lines, after the prefix, dense runs): must decode to the same bytes. (c) malformed inputs made from a well-formed spelling by one defect (digit dropped/added, non-hex character inserted/replacing a digit/at either end, second or misplaced prefix, bytes that are not UTF-8), every byte value at six positions, all 484 two-digit spellings, hand-written tables: error exit and empty stdout. Oracle: a reference decoder written from the property text (own nibble table; decides only space/tab/LF/CR, lower-case 0x with no white space inside). Undecided inputs (other white space, white space inside the prefix, 0X) are only required not to panic. Non-trivial: data non-empty and not ASCII text (round trip: distinct by data; layouts: spelling differs from the canonical one, distinct by input text), malformed inputs with at least two hex digits (distinct by input).".into();
+    ctx.rule = "CLI subprocess runs of the overflow-checked build, input by stdin (default and explicit `-`), by file (with decoy stdin), and - in a fixed table of lengths 0..70000 and malformed texts - by paths that are not regular files (/dev/stdin, a FIFO). (a) byte strings of length 0..=4096 (uniform bytes; all-0, all-ff, every byte value in turn, text, white-space bytes, hex-looking text, UTF-8, trailing line ends, bytes >= 0x80, control bytes; every single byte value and every length of a range as sweeps): `hex encode` must print exactly 0x + lower-case digits + newline and `hex decode` of that very output must return the bytes. (b) the digits of such strings re-spelled: 0x present/absent, digit case lower/upper/random/alternating, 11 white-space layouts over the six ASCII white-space characters {space, tab, LF, VT, FF, CR} (ends, between bytes, between the two digits of a byte, wrapped lines, after the prefix, dense runs): must decode to the same bytes. (c) malformed inputs made from a well-formed spelling by one defect (digit dropped/added, non-hex character inserted/replacing a digit/at either end, second or misplaced prefix, bytes that are not UTF-8), every byte value at six positions, all 484 two-digit spellings, hand-written tables: error exit and empty stdout. Oracle: a reference decoder written from the property text (own nibble table; decides only space/tab/LF/CR, lower-case 0x with no white space inside). Undecided inputs (other white space, white space inside the prefix, 0X) are only required not to panic. (d) position independence: one character (ASCII or other white space, zero-width characters, an emoji) inserted into the same 8192..66000-digit string once so that its bytes straddle or touch a multiple of 4096 and once near an end: both inputs must have the same outcome (and a decided white-space character must be ignored). Non-trivial: data non-empty and not ASCII text (round trip: distinct by data; layouts: spelling differs from the canonical one, distinct by input text), malformed inputs with at least two hex digits (distinct by input).".into();
     ctx.assumptions = vec![
         "exit 255 or 2 without panic text is an ordinary error; nothing is required of stderr".into(),
         "white space other than the six ASCII characters space, tab, LF, VT, FF, CR (that is, non-ASCII Unicode white space, zero-width characters, 0x1c-0x1f), white space inside the 0x prefix and an upper-case 0X prefix are not decided by the property (checked for absence of panic only)".into(),
@@ -963,6 +1053,10 @@ pub fn run(ctx: &mut Ctx) {
     ctx.run_cases("char-sweep", &char_sweep(), judge_decode);
     ctx.exhaustive_parts.push("every byte value 0..=255 at six positions of a short input (alone, before/after a digit, inside/after a prefixed pair, between two pairs)".into());
 
+    // position independence of white space in long inputs
+    let moves = ws_move_cases(t.pick(140, 4200), ctx.sub_seed("ws-move", 0));
+    ctx.run_cases("ws-move", &moves, judge_ws_move);
+
     // undecided inputs: no panic
     ctx.run_prop("unspecified", t.pick(300, 6000), unspecified_strategy, judge_decode);
     let fixed: Vec<Decode> = FIXED_UNSPECIFIED.iter().enumerate().map(|(i, u)| Decode::new(i as u8, u.as_bytes(), Model::default())).collect();
@@ -1023,6 +1117,7 @@ pub fn run(ctx: &mut Ctx) {
     ] {
         ctx.floor(l, mal, f);
     }
+    ctx.floor_abs("ws-move-multibyte-straddles-4096-multiple", t.pick(80, 2400));
     ctx.floor("decode-unspecified(no-panic-only)", t.pick(300, 6000) as u64, 0.9);
 }
 
@@ -1040,6 +1135,10 @@ fn replay_inner(sub: &str, case: &Value) -> (Option<Verdict>, bool) {
                 Err(e) => bad(e),
             }
         }
+        "ws-move" => match serde_json::from_value::<WsMove>(case.clone()) {
+            Ok(c) => judge_ws_move(&c, &mut cls),
+            Err(e) => bad(e),
+        },
         _ => return (None, false),
     };
     (Some(v), cls.count(TIMEOUT_LABEL) > 0)
